@@ -171,6 +171,16 @@ theorem skip_sound_leg (poly : Poly) (r : Reg) (hlen : 3 ≤ poly.length) (hC : 
   rw [(AdaptaVerif.Lemmas.Route.segHitsOriented_iff 1 0 poly r.pu r.pv).mpr ⟨t, h0, h1, hin⟩] at this
   exact Bool.noConfusion this
 
+/-- **skip_unsound_through_corners_witness.** The hypothesis "no vertex of the shape in the open edge" cannot be
+    dropped: an edge running exactly through two opposite corners of a square is NOT reported blocked by the
+    as-coded `newBlockingShape` test although it crosses the interior (known finding C06-block-diagonal; the
+    same weakness as `visible_unsound_witness` of Props/C03). -/
+theorem skip_unsound_through_corners_witness :
+    edgeBlocked [⟨2, 1⟩, ⟨2, 2⟩, ⟨1, 2⟩, ⟨1, 1⟩]
+      { conn := 1, u := VKey.ofEnd 1 .src, v := VKey.ofEnd 1 .tar, pu := ⟨0, 0⟩, pv := ⟨3, 3⟩ } = false ∧
+    segHitsInterior [⟨2, 1⟩, ⟨2, 2⟩, ⟨1, 2⟩, ⟨1, 1⟩] (⟨0, 0⟩ : Pt) ⟨3, 3⟩ = true := by
+  constructor <;> decide +kernel
+
 /-- **covered_after_routing.** `generatePath` of a polyline connector establishes the invariant -/
 theorem covered_after_routing (cid : Nat) (path : List (Pt × VKey)) (rst : RState)
     (hp : (rst.conns.find? (·.id == cid)).any (·.poly) = true) :
